@@ -102,11 +102,11 @@ def run_property(prop, tier, seed, verbose=True):
     kf_keys = {(k['property'], k['key']) for k in kf}
     new_v, known_v = [], {}
     for v in violations:
-        if (v['property'], v['key']) in kf_keys or (prop, v['key']) in kf_keys:
+        if (v['property'], v['key']) in kf_keys or (prop, v['key']) in kf_keys or (meta.get('shares_c01_oracle') and ('C01', v['key']) in kf_keys):
             known_v.setdefault(v['key'], []).append(v)
         else:
             new_v.append(v)
-    vcount_new = sum(c for k, c in counters.items() if k.startswith('violation:') and (prop, k[10:]) not in kf_keys)
+    vcount_new = sum(c for k, c in counters.items() if k.startswith('violation:') and (prop, k[10:]) not in kf_keys and not (meta.get('shares_c01_oracle') and ('C01', k[10:]) in kf_keys))
 
     # floors
     floor_fail = []
